@@ -41,6 +41,7 @@ inductive Clause
   | streakHard | streakSoft | event | stateRecorded | droppedAlthoughNotOlder
   | droppedChangesSomething | apiProjection | varsAfter | lastState
   | lastHardAtHardEvent | lastHardUnchanged | previousHardState | previousHardUnchanged
+  | concurrentSerial | eventOvertaken
   deriving Repr, DecidableEq
 
 def Clause.name : Clause → String
@@ -61,6 +62,8 @@ def Clause.name : Clause → String
   | .lastHardUnchanged => "last_hard_state_changes_only_with_hard_event"
   | .previousHardState => "previous_hard_state_is_hard_state_before_latest_hard_event"
   | .previousHardUnchanged => "previous_hard_state_changes_only_with_hard_event"
+  | .concurrentSerial => "concurrent_results_count_as_a_sequence"
+  | .eventOvertaken => "state_change_event_of_overtaken_result"
 
 /-- May a result be dropped?  Only when it is strictly older than the latest accepted one
     (with non-decreasing timestamps every result is processed). -/
@@ -161,6 +164,73 @@ def specFull (c : Cfg) : SpecSt → HistSt → List (Res × Obs) → Option Clau
     match fullStep c sp h r o with
     | (some cl, _, _) => some cl
     | (none, sp', h') => specFull c sp' h' rest
+
+/-! ## Two results processed concurrently
+
+"After any sequence of check results": results that are processed at the same time still form a sequence —
+the object must end up as after one of the two orders, and each result must have reported a hard event exactly
+when the rule demands one at its place in that order.  Only what the implementation fixes while it holds the
+object lock is read (state, type, attempt, recorded hard state, hard events). -/
+
+/-- What is observed once both calls have returned. -/
+structure PairObs where
+  accA : Bool
+  accB : Bool
+  state : SState
+  stype : SType
+  attempt : Nat
+  lastHard : SState
+  hardA : Nat      -- 0 no hard event for A, 1 exactly one, 9 more than one event
+  hardB : Nat
+  deriving Repr, DecidableEq
+
+/-- Does the hard-event flag contradict the expected event? -/
+def hardBad (e : Option Ev) (h : Nat) : Bool :=
+  match e with
+  | none => decide (1 < h)
+  | some .hard => h != 1
+  | some _ => h != 0
+
+/-- The observation of the final state, with the event the rule expects filled in (the event of the second
+    result is judged through its hard flag). -/
+def pairFinalObs (c : Cfg) (po : PairObs) (e : Option Ev) : Obs :=
+  { accepted := true, state := po.state, stype := po.stype, attempt := po.attempt, lastHard := po.lastHard,
+    ev := e.getD .none, prevHard := 99, vaState := po.state.toNat, vaType := po.stype.toNat, vaAttempt := po.attempt,
+    apiState := proj c.kind po.state, apiLastState := 0, apiLastHard := proj c.kind po.lastHard }
+
+/-- The pair read as the sequence `x` then `y` (`hx`, `hy` their hard flags). -/
+def pairOrder (c : Cfg) (sp : SpecSt) (x y : SState) (po : PairObs) (hx hy : Nat) : Option Clause :=
+  let sp1 := specNext c sp x
+  let sp2 := specNext c sp1 y
+  let e1 := specEvent c sp.streak sp1.streak sp.prev x
+  let e2 := specEvent c sp1.streak sp2.streak x y
+  if sp.everOk && hardBad e1 hx then some .event
+  else if sp1.everOk && hardBad e2 hy then some .event
+  else if hy == 1 && proj c.kind po.lastHard != proj c.kind y then some .lastHardAtHardEvent
+  else specStep c sp1 y (pairFinalObs c po e2)
+
+/-- Two concurrently processed results, both accepted: one of the two orders explains the observation. -/
+def specPair (c : Cfg) (sp : SpecSt) (a b : SState) (po : PairObs) : Option Clause :=
+  match pairOrder c sp a b po po.hardA po.hardB with
+  | none => none
+  | some _ =>
+    match pairOrder c sp b a po po.hardB po.hardA with
+    | none => none
+    | some _ => some .concurrentSerial
+
+/-- The whole clause for an `X` operation: none of the two may be dropped unless it is strictly older than the
+    latest accepted result (both carry the same execution start). -/
+def pairStep (c : Cfg) (sp : SpecSt) (lastExec : Option Int) (a b : SState) (execStart : Int) (po : PairObs) : Option Clause :=
+  if (!po.accA || !po.accB) && !mayDrop lastExec execStart then some .droppedAlthoughNotOlder
+  else if !po.accA || !po.accB then none
+  else specPair c sp a b po
+
+/-- A result whose state-change report was overtaken by the next result (it was held by a subscriber of
+    its new-check-result signal): the same specification; a wrong event is reported under its own name. -/
+def overtakenStep (c : Cfg) (sp : SpecSt) (h : HistSt) (r : Res) (o : Obs) : Option Clause × SpecSt × HistSt :=
+  match fullStep c sp h r o with
+  | (some .event, sp', h') => (some .eventOvertaken, sp', h')
+  | x => x
 
 /-! ## Start states other than the never-checked one (state file, cluster sync)
 
